@@ -165,12 +165,56 @@ func (p *Prog) VerifyFunc(fn *ssa.Function, fc *FuncContract, cf *ContractFile, 
 			if len(results) > 0 {
 				env.vars["result"] = results[0]
 			}
+			firstPost := len(vc.obls)
 			for j, c := range fc.Ensures {
 				name := fmt.Sprintf("post.%d", j+1)
 				if c.Name != "" {
 					name = "post." + c.Name
 				}
 				fr.obligeParts(name, "post", freach, env, c)
+			}
+			mainPosts := vc.obls[firstPost:]
+			// alternatives: the same post-conditions per return point (used only
+			// when the merged obligation does not discharge; all of them together
+			// imply the merged one)
+			if len(rets) > 1 && len(rets) <= 12 && len(mainPosts) > 0 {
+				saved := vc.obls
+				for rj, r := range rets {
+					vc.obls = nil
+					renv := fr.specEnv(r.st, "ensures")
+					fr.bindParams(renv)
+					renv.locals = nil
+					for i, rv := range r.results {
+						if n := fn.Signature.Results().At(i).Name(); n != "" && n != "_" {
+							renv.vars[n] = rv
+						}
+						renv.vars[fmt.Sprintf("result%d", i)] = rv
+					}
+					if len(r.results) > 0 {
+						renv.vars["result"] = r.results[0]
+					}
+					for j, c := range fc.Ensures {
+						name := fmt.Sprintf("post.%d", j+1)
+						if c.Name != "" {
+							name = "post." + c.Name
+						}
+						fr.obligeParts(name, "post", r.reach, renv, c)
+					}
+					byName := map[string]*Obligation{}
+					for _, a := range vc.obls {
+						byName[a.Name] = a
+					}
+					for _, m := range mainPosts {
+						if a, ok := byName[m.Name]; ok {
+							a.Name = fmt.Sprintf("%s.ret%d", a.Name, rj+1)
+							m.Alts = append(m.Alts, a)
+						}
+					}
+				}
+				vc.obls = saved
+				for _, m := range mainPosts {
+					m.HasAlts = true
+				}
 			}
 			if !fc.ModAll {
 				fr.frameObligations(final, freach)
